@@ -23,8 +23,26 @@ const MIN_COV: u64 = 50;
 pub fn fuzz_dir() -> PathBuf {
     PathBuf::from(std::env::var("VERIF_FUZZ_DIR").unwrap_or_else(|_| "/verif/fuzz".into()))
 }
-fn out_dir() -> PathBuf {
-    PathBuf::from(std::env::var("VERIF_FUZZ_OUT").unwrap_or_else(|_| "/verif/target/fuzz-out".into()))
+/// every run gets its own output directory (two C05 runs side by side must not clear each other's
+/// campaign state); directories of runs whose process is gone are removed first
+fn out_dir(tier: &str) -> PathBuf {
+    if let Ok(p) = std::env::var("VERIF_FUZZ_OUT") {
+        return PathBuf::from(p);
+    }
+    let base = PathBuf::from("/verif/target/fuzz-out");
+    if let Ok(rd) = std::fs::read_dir(&base) {
+        for e in rd.flatten() {
+            let n = e.file_name().to_string_lossy().to_string();
+            let stale = match n.rsplit_once('-').and_then(|(_, pid)| pid.parse::<u32>().ok()) {
+                Some(pid) => !Path::new(&format!("/proc/{pid}")).exists(),
+                None => true,
+            };
+            if stale {
+                let _ = if e.path().is_dir() { std::fs::remove_dir_all(e.path()) } else { std::fs::remove_file(e.path()) };
+            }
+        }
+    }
+    base.join(format!("{tier}-{}", std::process::id()))
 }
 fn target_bin(format: &str) -> PathBuf {
     PathBuf::from(std::env::var("VERIF_FUZZ_TARGET_DIR").unwrap_or_else(|_| "/verif/target/fuzz".into()))
@@ -137,8 +155,10 @@ pub fn classify(check: &Check, spec: &Spec, arts: &[(String, PathBuf)]) -> Vec<V
 /// Run the campaigns of the current tier and fold their results into the check.
 pub fn run(check: &Check, spec: &Spec) {
     let dir = fuzz_dir();
-    let out = out_dir();
     let tier = check.tier.name();
+    let out = out_dir(tier);
+    // a sibling, not a child: the driver clears its output directory after writing the seed corpus
+    let corpus = out.with_file_name(format!("corpus-{}", out.file_name().unwrap_or_default().to_string_lossy()));
     let driver_log = std::env::temp_dir().join(format!("c05-fuzz-driver-{}.log", std::process::id()));
     let log_file = match std::fs::File::create(&driver_log) {
         Ok(f) => f,
@@ -154,6 +174,7 @@ pub fn run(check: &Check, spec: &Spec) {
         .arg((check.sub_seed("c05-fuzz") % 4_000_000_000).to_string())
         .env("VERIF_C05_BIN", &exe)
         .env("VERIF_FUZZ_OUT", &out)
+        .env("VERIF_FUZZ_CORPUS", &corpus)
         .stdin(std::process::Stdio::null())
         .stdout(log_file.try_clone().expect("dup"))
         .stderr(log_file)
@@ -251,4 +272,7 @@ pub fn run(check: &Check, spec: &Spec) {
     if check.tier == Tier::Thorough {
         check.bump("fuzz:tier-thorough", 1);
     }
+    // campaign corpora are large and volatile; logs stay until the next run removes the directory
+    let _ = std::fs::remove_dir_all(out.join("work"));
+    let _ = std::fs::remove_dir_all(&corpus);
 }
